@@ -20,7 +20,7 @@ ASSUMPTIONS = [
     "the ENABLE DEVICE TYPE 8 prefix is the driver's job (C15); here the DT8 command is decoded under the command's own device type",
     "the unit's DTRs hold stale 0xA5 before every run, so a missing or late DTR load is visible",
 ]
-BOUNDS = {"quick": "values with both bytes in {0,1,0x7F,0x80,0xFE,0xFF} + 256 spread values; all selectors", "thorough": "all 65 536 values for set (4 destinations), limit (4 selectors) and the Tc query selector; 1 024 spread values for the other selectors"}
+BOUNDS = {"quick": "values with both bytes in {0,1,0x7F,0x80,0xFE,0xFF} + 256 spread values; all selectors", "thorough": "all 65 536 values for set (4 destinations), limit (4 selectors) and the Tc query selector; all 65 536 values for every one of the 73 query selectors"}
 
 EDGE = [0x00, 0x01, 0x7F, 0x80, 0xFE, 0xFF]
 
@@ -41,10 +41,10 @@ def shards(tier):
     for sel in range(4):
         for p in range(n):
             out.append(("limit", sel, p, n, tier))
-    out.append(("query", tier, 0, 1) if tier == "quick" else ("query", tier, 0, 8))
+    out.append(("query", tier, 0, 1) if tier == "quick" else ("query", tier, 0, 64))
     if tier == "thorough":
-        for p in range(1, 8):
-            out.append(("query", tier, p, 8))
+        for p in range(1, 64):
+            out.append(("query", tier, p, 64))
     out.append(("illegal",))
     return out
 
@@ -170,10 +170,8 @@ def run_shard(shard):
         _, tier, p, n = shard
         cnt = 0
         for selector in Q:
-            if selector.value == 2 and tier == "thorough":
+            if tier == "thorough":
                 vs = range(p, 65536, n)
-            elif tier == "thorough":
-                vs = sorted(set(range(p, 65536, 64 * n)) | ({(h << 8) | l for h in EDGE for l in EDGE} if p == 0 else set()))
             else:
                 vs = sorted({(h << 8) | l for h in EDGE for l in EDGE} | set(range(0, 65536, 4111)))
             for val in vs:
